@@ -444,6 +444,17 @@ def run(ctx) -> None:
     refused_patterns_rule(ctx, "R8")
     ctx.rule("R7", "a part name is substituted only where it does not overlap a part already substituted (text next to a part stays literal); the expression is searched in the unmodified line")
 
+    ctx.rule("R9", "`bumpver grep` searches with the compiler of the pattern language it documents (v2): the text typed is compiled by v2patterns.compile_pattern on every path")
+    gfn = prog.function("cli._grep")
+    ctx.visit(gfn.fq)
+    comp_calls = [c for c in ast.walk(gfn.node) if isinstance(c, ast.Call) and unparse(c.func).split(".")[-1] in ("compile_pattern", "compile_patterns", "_compile_pattern_re")]
+    ctx.floor("R9", "pattern compiler calls in cli._grep", len(comp_calls), 1)
+    for c in comp_calls:
+        ctx.check("R9", unparse(c.func) in ("v2patterns.compile_pattern",), f"cli._grep L{c.lineno}: `{unparse(c.func)}`",
+                  "cli._grep: the search pattern is compiled by another compiler than v2patterns.compile_pattern on some path",
+                  f"`{unparse(c)[:80]}`: under the legacy compiler `\\[` / `\\]` are a literal backslash + bracket and `{{...}}` is part syntax, so literal text of a v2 pattern "
+                  f"(e.g. `{{x\\[0\\]}}`) no longer finds the lines that contain it", loc=gfn.loc(c), witness={"pattern": "{x\\[0\\]}", "line": "{x[0]}"})
+
     table = prog.const("patterns", "RE_PATTERN_ESCAPES")
     ctx.floor("R2", "escape table entries", len(table), 12)
     for char, esc in table:
